@@ -144,10 +144,16 @@ func getSpatialIdAttrs(spatialId string) (int, int, int, int, error) {
 		return 0, 0, 0, 0, errors.NewSpatialIdError(errors.InputValueErrorCode, fmt.Sprintf("spatialId: %v", spatialId))
 	}
 	var errNumberConversion error
-	zoom, errNumberConversion := strconv.Atoi(spatialIdAttributes[0])
-	f, errNumberConversion := strconv.Atoi(spatialIdAttributes[1])
-	x, errNumberConversion := strconv.Atoi(spatialIdAttributes[2])
+	zoom, errZoom := strconv.Atoi(spatialIdAttributes[0])
+	f, errF := strconv.Atoi(spatialIdAttributes[1])
+	x, errX := strconv.Atoi(spatialIdAttributes[2])
 	y, errNumberConversion := strconv.Atoi(spatialIdAttributes[3])
+	// いずれかの成分の数値変換に失敗した場合はエラーとする
+	for _, err := range []error{errZoom, errF, errX} {
+		if err != nil {
+			errNumberConversion = err
+		}
+	}
 	// 不正形式(数値)
 	if errNumberConversion != nil {
 		return 0, 0, 0, 0, errors.NewSpatialIdError(errors.InputValueErrorCode, fmt.Sprintf("spatialId: %v", spatialId))
